@@ -21,6 +21,8 @@ KWARGS = {
     "std": STD,                                                           # a checkpoint after every iteration
     "aug": dict(STD, flow_proposal_class="augmentedflowproposal", max_iteration=130),
     "std_pool": dict(STD, poolsize=10, max_iteration=140),                # small pool: checkpoints with an empty pool
+    # time-triggered with a vanishing interval: a resumed sampler checkpoints at loop entry
+    "std_entry": dict(STD, checkpoint_on_iteration=False, checkpoint_interval=1e-9, max_iteration=130),
     "std_time": dict(STD, checkpoint_on_iteration=False, checkpoint_interval=0.05),    # time-triggered
     "std_chain": dict(STD, checkpoint_interval=10),
     "aug_chain": dict(STD, checkpoint_interval=10, flow_proposal_class="augmentedflowproposal", max_iteration=130),
@@ -88,11 +90,19 @@ def translate(chk):
         status["counters"] = f"declined: {e}"
     except Exception as e:
         status["counters"] = f"declined: translator error {type(e).__name__}: {e}"
+    prol = None
+    try:
+        prol = t.loop_prologue()
+        status["loop_prologue"] = f"translated: {prol}"
+    except Declined as e:
+        status["loop_prologue"] = f"declined: {e}"
+    except Exception as e:
+        status["loop_prologue"] = f"declined: translator error {type(e).__name__}: {e}"
     chk.translator = status
-    return sks, infos, effs, unclassified, known
+    return sks, infos, effs, unclassified, known, prol
 
 
-def today(chk, sks, effs, unclassified):
+def today(chk, sks, effs, unclassified, prol=None):
     txt = common.COQ_HEADER + IMPORTS
     for cname, (term, cls) in sks.items():
         # unclassified (new) attributes are left to the correspondence: drop them from the universe
@@ -114,10 +124,17 @@ def today(chk, sks, effs, unclassified):
             txt += f"Lemma today_counter_{key} : counter_ok effs_{key} = true.\nProof. vm_compute. reflexivity. Qed.\n"
             txt += (f"Lemma today_counter_property_{key} : forall segs, chain effs_{key} segs = total segs.\n"
                     f"Proof. exact (counters effs_{key} today_counter_{key}). Qed.\n")
+    if prol:
+        txt += f"Definition prologue_now : list peff := {prol}.\n"
+        txt += "Lemma today_prologue : prologue_ok prologue_now = true.\nProof. vm_compute. reflexivity. Qed.\n"
+        txt += ("Lemma today_prologue_property : forall orig cks, Forall (fun note => note = orig) "
+                "(p_written (prologue prologue_now cks (after_resume_pool orig))).\n"
+                "Proof. exact (prologue_sound prologue_now today_prologue). Qed.\n")
     ok, _, err = chk.coq_run("today", txt)
     chk.oblige("today: fields_ok on the regenerated skeletons of NestedSampler, ImportanceNestedSampler, FlowProposal, "
                "AugmentedFlowProposal, RejectionProposal, ImportanceFlowProposal, ImportanceFlowModel, OrderedSamples, "
-               "Model; counter_ok on resume_from_pickled_sampler; instantiated roundtrip / counter theorems",
+               "Model; counter_ok on resume_from_pickled_sampler; prologue_ok on the loop prologue of nested_sampling_loop "
+               "(check_resume before the first update_state); instantiated roundtrip / counter / entry-checkpoint theorems",
                "today", ok, err)
     if not ok:
         ex = common.COQ_HEADER + IMPORTS
@@ -142,6 +159,7 @@ def gen_jobs(chk):
          {"id": "chain-ins", "kind": "chain", "sampler": "ins_chain", "kills": [450, 300], "pre_evals": 3}],
         [{"id": "chain-std", "kind": "chain", "sampler": "std_chain", "kills": [180, 250], "pre_evals": 3}],
         [{"id": "std_pool", "kind": "snapshots", "sampler": "std_pool", "select": {"max": 6} if q else {"stride": 6}}],
+        [{"id": "std_entry", "kind": "regen", "sampler": "std_entry", "select": {"max": 2 if q else 8}}],
     ]
     if not q:
         shards += [
@@ -157,6 +175,9 @@ def gen_jobs(chk):
 def run_children(chk, shards):
     outs = [None] * len(shards)
 
+    import time as _time
+    t_child0 = _time.time()
+
     def work(i):
         job = {"root": os.path.join(chk.build, f"w{i}"), "timeout": 400, "kwargs": KWARGS, "jobs": shards[i]}
         rc, out, err = chk.child("c12_child.py", timeout=1500 if chk.tier == "quick" else 3000, inp=json.dumps(job))
@@ -164,6 +185,7 @@ def run_children(chk, shards):
             outs[i] = json.loads(out)["results"]
         except (ValueError, KeyError):
             outs[i] = [{"id": f"shard{i}", "error": f"rc={rc} {err[-1500:]}"}]
+        chk.notes.append(f"worker {i} ({', '.join(j['id'] for j in shards[i])}): {_time.time() - t_child0:.0f} s")
 
     ths = [threading.Thread(target=work, args=(i,)) for i in range(len(shards))]
     for t in ths:
@@ -291,8 +313,8 @@ def run(chk):
         "transient and only the continuation of the run can tell otherwise",
     ]
     chk.static_props(["C12"], ["C12_run"])
-    sks, infos, effs, unclassified, known = translate(chk)
-    today(chk, sks, effs, unclassified)
+    sks, infos, effs, unclassified, known, prol = translate(chk)
+    today(chk, sks, effs, unclassified, prol)
 
     results = run_children(chk, gen_jobs(chk))
     fields, field_src, rts = [], [], []
@@ -304,9 +326,73 @@ def run(chk):
     def did(d):
         return ids.setdefault(d, len(ids))
 
+    def compare(sampler, n, before, after, close, replay, out, out_src, with_rt):
+        """attribute-by-attribute literals (class kind, field, digest before, digest after, presumed transient)"""
+        bef = {(e["role"], e["field"]): e for e in before}
+        aft = {(e["role"], e["field"]): e for e in after}
+        by_obj = {}
+        for key in sorted(set(bef) | set(aft)):
+            role, f = key
+            kind = (bef.get(key) or aft.get(key))["kind"]
+            b = bef[key]["digest"] if key in bef else None
+            x = aft[key]["digest"] if key in aft else None
+            if f == "log_q" and close.get(f"{role}:log_q", {}).get("close") and not KWARGS[sampler].get("save_log_q"):
+                x = b          # re-derived density table agrees to float32 accuracy (a saved one must be exact)
+            cname = obj_class(sampler, role)
+            presumed = bool(cname and cname in infos and f in infos[cname]["excl"]
+                            and f not in known.get(cname, []) and f not in infos[cname]["carried"])
+            if presumed:
+                chk.count("presumed-transient:" + f)
+            out.append(cT(cStr(kind), cStr(f), cOpt(None if b is None else did(b)),
+                          cOpt(None if x is None else did(x)), cB(presumed)))
+            out_src.append((sampler, n, role, f, replay))
+            if b is not None and not presumed:
+                by_obj.setdefault((role, kind), []).append((f, did(b)))
+        if with_rt:
+            for (role, kind), fl in by_obj.items():
+                cname = obj_class(sampler, role)
+                if cname in sks:
+                    rts.append((cname, cT(cStr(kind), cL([cT(cStr(f), str(i)) for f, i in fl]))))
+
+    entry_fields, entry_src = [], []
     for r in results:
         if "error" in r:
             chk.oblige(f"job {r['id']} ran", "harness", False, r["error"])
+            continue
+        if r["kind"] == "regen":
+            sampler = r["id"]
+            chk.count(f"{sampler}:checkpoints_written", r["n_checkpoints"])
+            for c in r["cases"]:
+                chk.evaluations += 1
+                chk.nontriv((sampler, "regen", c["n"]))
+                m1 = c["meta1"]
+                replay = {"job": {"id": r["id"], "kind": "regen", "sampler": sampler, "select": {"only": [c["n"]]}},
+                          "kwargs": KWARGS[sampler], "meta": m1}
+                if "gen2" not in c:
+                    chk.fail(f"C12:{sampler}:resumed-run-raised", f"{sampler} checkpoint {c['n']} (iteration {m1['iteration']}): the "
+                             f"resumed sampler did not reach its first checkpoint: {c.get('gen2_error', '')[-300:]}",
+                             dict(replay, expect="resume-raised"))
+                    continue
+                m2 = c["meta2"]
+                at_entry = m2["iteration"] == m1["iteration"]
+                chk.count(f"{sampler}:second-generation:" + ("at-loop-entry" if at_entry else "after-new-iterations")
+                          + (":pool" if (m1.get("pool") or 0) > 0 else ""))
+                if at_entry:
+                    # no iteration in between: the resumed sampler must hold what the first one held
+                    compare(sampler, c["n"], c["gen1"], c["gen2"], {}, dict(replay, stage="entry"), entry_fields, entry_src, False)
+                a = c["after2"]
+                if "ready" not in a:
+                    chk.fail(f"C12:{sampler}:resume-raised:{a.get('resume_error')}",
+                             f"{sampler} second-generation checkpoint of {c['n']}: FlowSampler(resume=True) failed: "
+                             f"{a.get('resume_error')}: {a.get('msg', '')[:200]}", dict(replay, expect="resume-raised"))
+                    continue
+                compare(sampler, c["n"], c["gen2"], a["ready"], a.get("derived", {}), dict(replay, stage="second"),
+                        fields, field_src, True)
+                if at_entry:
+                    # ... and so must the sampler resumed from that second-generation checkpoint
+                    compare(sampler, c["n"], c["gen1"], a["ready"], {}, dict(replay, stage="entry-resumed"),
+                            entry_fields, entry_src, False)
+                chk.sample({"run": sampler, "checkpoint": c["n"], "meta_first": m1, "meta_second_generation": m2}, limit=8)
             continue
         if r["kind"] == "snapshots":
             sampler = r["id"]
@@ -330,31 +416,10 @@ def run(chk):
                              f"{sampler} checkpoint {c['n']} (iteration {m['iteration']}): FlowSampler(resume=True) failed: "
                              f"{a.get('resume_error')}: {a.get('msg', '')[:200]}", dict(replay, expect="resume-raised"))
                     continue
+                compare(sampler, c["n"], c["before"], a["ready"], a.get("derived", {}), replay, fields, field_src, True)
                 bef = {(e["role"], e["field"]): e for e in c["before"]}
                 aft = {(e["role"], e["field"]): e for e in a["ready"]}
                 close = a.get("derived", {})
-                by_obj = {}
-                for key in sorted(set(bef) | set(aft)):
-                    role, f = key
-                    kind = (bef.get(key) or aft.get(key))["kind"]
-                    b = bef[key]["digest"] if key in bef else None
-                    x = aft[key]["digest"] if key in aft else None
-                    if f == "log_q" and close.get(f"{role}:log_q", {}).get("close") and not KWARGS[sampler].get("save_log_q"):
-                        x = b          # re-derived density table agrees to float32 accuracy (a saved one must be exact)
-                    cname = obj_class(sampler, role)
-                    presumed = bool(cname and cname in infos and f in infos[cname]["excl"]
-                                    and f not in known.get(cname, []) and f not in infos[cname]["carried"])
-                    if presumed:
-                        chk.count("presumed-transient:" + f)
-                    fields.append(cT(cStr(kind), cStr(f), cOpt(None if b is None else did(b)),
-                                     cOpt(None if x is None else did(x)), cB(presumed)))
-                    field_src.append((sampler, c["n"], role, f, replay))
-                    if b is not None and not presumed:
-                        by_obj.setdefault((role, kind), []).append((f, did(b)))
-                for (role, kind), fl in by_obj.items():
-                    cname = obj_class(sampler, role)
-                    if cname in sks:
-                        rts.append((cname, cT(cStr(kind), cL([cT(cStr(f), str(i)) for f, i in fl]))))
                 if len(chk.samples) < 4:
                     chk.sample({"run": sampler, "checkpoint": c["n"], "meta": m,
                                 "differing_fields": sorted(f"{k[0]}.{k[1]}" for k in set(bef) | set(aft)
@@ -396,11 +461,12 @@ def run(chk):
         n_rt += len(lits)
         txt += f"Definition sk_{cname} : skel := {sks[cname][0]}.\n"
         txt += f"Definition rt_{cname} := {cL(lits)}.\nEval vm_compute in (mism (chk_model_roundtrip sk_{cname}) rt_{cname}).\n"
+    txt += f"Definition entryz := {cL(entry_fields)}.\nEval vm_compute in (mism chk_field_entry entryz).\n"
     eff_term = effs["likelihood_evaluations"] if effs else "counter_today"
     txt += f"Definition chainsz := {cL(chains)}.\nEval vm_compute in (mism (chk_chain {eff_term}) chainsz).\n"
     ok, evals, err = chk.coq_run("cases", txt)
     ncls = len({c for c, _ in rts})
-    if not ok or len(evals) != 2 + ncls:
+    if not ok or len(evals) != 3 + ncls:
         chk.oblige("correspondence batch evaluated in Coq", "correspondence", False, err)
         return
     bad = common.parse_nat_list(evals[0])
@@ -420,10 +486,25 @@ def run(chk):
             badrt.append(f"{cname}: {len(b)} objects")
     chk.oblige(f"correspondence: the model's getstate/setstate/resume on the regenerated skeleton keeps every result-bearing "
                f"attribute the real objects have ({n_rt} objects)", "correspondence", not badrt, "; ".join(badrt))
+    bad = common.parse_nat_list(evals[-2])
+    seen_keys = set()
+    for i in bad:
+        sampler, n, role, f, replay = entry_src[i]
+        if (sampler, role, f) in seen_keys:
+            continue
+        seen_keys.add((sampler, role, f))
+        chk.fail(f"C12:{sampler}:{role}.{f}:lost-at-entry-checkpoint",
+                 f"{sampler} checkpoint {n}: a sampler resumed from it writes its first checkpoint at loop entry (same "
+                 f"iteration); attribute {role}.{f} of that second-generation state differs from what the sampler that wrote "
+                 f"the first checkpoint held", dict(replay, expect=[role, f]))
+    chk.oblige(f"correspondence: a resumed sampler holds, when it writes its first checkpoint at loop entry, and gives back "
+               f"when resumed from it, what the writer of the checkpoint it came from held ({len(entry_fields)} attributes)",
+               "correspondence", not bad,
+               "differs: " + ", ".join(f"{entry_src[i][0]}#{entry_src[i][1]}:{entry_src[i][2]}.{entry_src[i][3]}" for i in bad[:8]))
     bad = common.parse_nat_list(evals[-1])
     chk.oblige(f"correspondence: evaluation count reported at the end of each kill/resume chain = model chain on the observed "
                f"segments ({len(chains)} chains)", "correspondence", not bad, ", ".join(chain_src[i] for i in bad))
-    chk.traces = len(fields) + n_rt + len(chains)
+    chk.traces = len(fields) + len(entry_fields) + n_rt + len(chains)
     chk.oracle_validations = sum(1 for s in field_src if s[3] == "log_q")
 
 
@@ -453,6 +534,39 @@ def replay(data):
             print(f"VIOLATION property={PID} replay=(replayed) " + "; ".join(probs)[:300])
             return 1
         return 0
+    if rp["job"].get("kind") == "regen":
+        sampler = rp["job"]["sampler"]
+        job = {"root": os.path.join(common.BUILD_ROOT, "C12_replay"), "timeout": 400, "kwargs": {sampler: rp["kwargs"]},
+               "jobs": [rp["job"]]}
+        r = subprocess.run(["timeout", "1200", common.PY, os.path.join(common.VERIF, "harness", "c12_child.py")],
+                           input=json.dumps(job), capture_output=True, text=True, env=common.child_env())
+        try:
+            out = json.loads(r.stdout)["results"][0]
+        except (ValueError, KeyError, IndexError):
+            print("replay child failed:", r.stderr[-1500:])
+            return 2
+        rc = 0
+        for c in out.get("cases", []):
+            if "gen2" not in c or "ready" not in c.get("after2", {}):
+                print(json.dumps({"checkpoint": c["n"], "gen2_error": c.get("gen2_error"), "after2": c.get("after2")})[:1500])
+                print(f"VIOLATION property={PID} replay=(replayed) the resumed sampler failed")
+                rc = 1
+                continue
+            if isinstance(rp.get("expect"), list):
+                role, f = rp["expect"]
+                pick = lambda lst: [e["digest"] for e in lst if e["role"] == role and e["field"] == f]
+                stage = rp.get("stage", "entry")
+                a, b = {"entry": (c["gen1"], c["gen2"]), "entry-resumed": (c["gen1"], c["after2"]["ready"]),
+                        "second": (c["gen2"], c["after2"]["ready"])}[stage]
+                print(json.dumps({"checkpoint": c["n"], "iteration_first": c["meta1"]["iteration"],
+                                  "iteration_second_generation": c["meta2"]["iteration"], "attribute": f"{role}.{f}",
+                                  "stage": stage, "before": pick(a), "after": pick(b),
+                                  "populated_first": c["meta1"].get("populated"), "pool_first": c["meta1"].get("pool"),
+                                  "populated_second_generation": c["meta2"].get("populated")}))
+                if pick(a) != pick(b):
+                    print(f"VIOLATION property={PID} replay=(replayed) {role}.{f} differs ({stage})")
+                    rc = 1
+        return rc
     sampler = rp["job"]["sampler"]
     job = {"root": os.path.join(common.BUILD_ROOT, "C12_replay"), "timeout": 400, "kwargs": {sampler: rp["kwargs"]},
            "jobs": [rp["job"]]}
